@@ -60,6 +60,7 @@ fn main() {
         "C07" => hist::run(seed, n, &mut out, true),
         "C18" => c18::run(seed, n, &mut out, args.get(5).map(|s| s.as_str()).unwrap_or("quick")),
         "PARSE" => c11::run_parse(seed, n, &mut out),
+        "C11" => c11::run(seed, n, &mut out, args.get(5).map(|s| s.as_str()).unwrap_or("quick")),
         "C02" => c02::run(seed, n, &mut out, args.get(5).map(|s| s.as_str()).unwrap_or("quick")),
         "C03" => c03::run(seed, n, &mut out, args.get(5).map(|s| s.as_str()).unwrap_or("quick")),
         "C16" => cosm::run_c16(seed, n, &mut out),
